@@ -378,7 +378,7 @@ class model_parse(Contract):
             raise Unsupported('nested abstract parse')
         if not isinstance(wire, View):
             cx.it.raise_(TypeError, 'a bytes-like object is required', node=node)
-        return parse_model(cx.it, cls, wire, markers if markers is not None else {}, node)
+        return parse_model(cx.it, cls, wire, markers if markers is not None else {}, node, p.get('ignore_critical', False))
 
     def post(c, cx, result, cls, wire, markers, ignore_critical):
         loc = cx.it.top_locals
